@@ -70,8 +70,37 @@ Fixpoint esc_lookup (k : string) (l : list (string * N)) : N :=
   | (k', c) :: r => if String.eqb k k' then c else esc_lookup k r
   end.
 
+(** The cases of a file and the table are both sorted by key (byte order): one merge pass.
+    Cases out of order are reported (they are compared against the wrong part of the table). *)
+Fixpoint rich_merge (fuel : nat) (cs : list rich_case) (tb : list (string * N)) : list N :=
+  match fuel with
+  | O => map (fun '(id, _, _) => id) cs
+  | S f =>
+      match cs with
+      | [] => []
+      | (id, k, o) :: cs' =>
+          match tb with
+          | [] => (if N.eqb 1 o then [] else [id]) ++ rich_merge f cs' []
+          | (k', c) :: tb' =>
+              match String.compare k k' with
+              | Eq => (if N.eqb c o then [] else [id]) ++ rich_merge f cs' tb
+              | Lt => (if N.eqb 1 o then [] else [id]) ++ rich_merge f cs' tb
+              | Gt => rich_merge f cs tb'
+              end
+          end
+      end
+  end.
+
+Fixpoint keys_sorted (cs : list rich_case) : bool :=
+  match cs with
+  | (_, k, _) :: (((_, k', _) :: _) as r) =>
+      match String.compare k k' with Gt => false | _ => keys_sorted r end
+  | _ => true
+  end.
+
 Definition rich_mis_y (cs : list rich_case) : list N :=
-  flat_map (fun '(id, k, o) => if N.eqb (esc_lookup k escapes) o then [] else [id]) cs.
+  if keys_sorted cs then rich_merge (length cs + length escapes) cs escapes
+  else flat_map (fun '(id, k, o) => if N.eqb (esc_lookup k escapes) o then [] else [id]) cs.
 Definition rich_mis_g (cs : list rich_case) : list N := [].
 
 (** multi-package stream: (id, world, observed trace of package markers, observed class) *)
